@@ -5,11 +5,13 @@
 package worlds
 
 import (
+	"runtime"
 	"runtime/debug"
+	"sync/atomic"
 
-	"github.com/gethiox/HIDI/internal/pkg/logger"
 	"encoding/json"
 	"fmt"
+	"github.com/gethiox/HIDI/internal/pkg/logger"
 	"os"
 	"sort"
 	"strings"
@@ -130,6 +132,76 @@ type Output struct {
 	Digests    map[string]string `json:"-"`
 }
 
+// state of the worker, for exits from inside a run that cannot be completed (a goroutine of the program
+// under test spins forever or is blocked with timers running: the bubble would never end)
+var atomicRunCounter atomic.Uint64
+
+var (
+	curJob  *Job
+	curOut  *Output
+	curSeed uint64
+	curIdx  int
+)
+
+// HardFail reports a violation from inside a run and ends the process (the driver restarts the worker for the
+// remaining seeds when the violation is not the one it is looking for).
+func HardFail(v *Vio, rp *Replay) {
+	if curJob == nil || curOut == nil {
+		os.Exit(2)
+	}
+	curOut.NextIndex = curIdx + 1
+	curOut.Runs++
+	switch {
+	case !v.has(curJob.Prop):
+		curOut.Foreign[strings.Join(v.Props, "+")+":"+v.Clause]++
+		flush(curJob, curOut)
+		os.Exit(3)
+	case curJob.known(v) != nil:
+		k := curJob.known(v)
+		curOut.KnownHits[k.Property+"|"+k.Clause+"|"+k.Signature]++
+		flush(curJob, curOut)
+		os.Exit(3)
+	}
+	rec := VioRec{Seed: curSeed, Vio: *v}
+	if rp != nil {
+		rp.Clause, rp.Sig, rp.Detail = v.Clause, v.Sig, v.Detail
+		b, _ := json.MarshalIndent(rp, "", " ")
+		path := fmt.Sprintf("%s.replay-%s-%d.json", curJob.Out, curJob.Prop, curSeed)
+		os.WriteFile(path, b, 0o644)
+		rec.Replay = path
+	}
+	curOut.Violations = append(curOut.Violations, rec)
+	flush(curJob, curOut)
+	os.Exit(1)
+}
+
+// pending is the violation a world has already recorded for the current run (set with notePending); if the run
+// cannot be completed it is reported from the unclean-exit path.
+var (
+	pendingVio *Vio
+	pendingRp  *Replay
+)
+
+func notePending(v *Vio, rp *Replay) {
+	if pendingVio == nil {
+		pendingVio, pendingRp = v, rp
+	}
+}
+
+// hardUnclean ends the process when a finished run leaves goroutines behind that keep running.
+func hardUnclean(simrt.Result) {
+	if curJob == nil || curOut == nil {
+		os.Exit(2)
+	}
+	if pendingVio != nil {
+		HardFail(pendingVio, pendingRp)
+	}
+	curOut.NextIndex = curIdx + 1
+	curOut.Probes["unclean_exits"]++
+	flush(curJob, curOut)
+	os.Exit(3)
+}
+
 type worldFn func(t *testing.T, job *Job, seed uint64, rp *Replay) RunOut
 
 var worldTable = map[string]worldFn{}
@@ -206,6 +278,46 @@ func WorkerMain(t *testing.T) {
 		for range c {
 		}
 	}(logger.Messages)
+	// wall-clock watchdog per run: a run that does not finish is either a busy loop without any scheduling
+	// point in the program under test (reported as a hang of the property under check when a running
+	// goroutine is inside HIDI) or a harness problem (exit 2)
+	go func() {
+		last, since := uint64(0), time.Now()
+		for {
+			time.Sleep(2 * time.Second)
+			cur := atomicRunCounter.Load()
+			if cur != last {
+				last, since = cur, time.Now()
+				continue
+			}
+			if time.Since(since) < 150*time.Second || curJob == nil {
+				continue
+			}
+			buf := make([]byte, 1<<20)
+			buf = buf[:runtime.Stack(buf, true)]
+			where := ""
+			for _, g := range strings.Split(string(buf), "\n\n") {
+				head := g
+				if i := strings.Index(g, "\n"); i >= 0 {
+					head = g[:i]
+				}
+				if (strings.Contains(head, "[running") || strings.Contains(head, "[runnable")) && strings.Contains(g, "gethiox/HIDI/internal") {
+					for _, l := range strings.Split(g, "\n") {
+						if strings.Contains(l, "gethiox/HIDI/internal") || strings.Contains(l, "gethiox/HIDI/cmd") {
+							where = strings.TrimSpace(l)
+							break
+						}
+					}
+				}
+			}
+			if where == "" {
+				fmt.Fprintf(os.Stderr, "worker watchdog: run of seed %d does not finish and no running goroutine is inside HIDI\n%s\n", curSeed, shorten(string(buf), 6000))
+				os.Exit(2)
+			}
+			HardFail(&Vio{Props: []string{curJob.Prop}, Clause: "run_hangs", Detail: "the run did not finish within 150 s of wall-clock time; a goroutine is busy in " + where},
+				&Replay{World: curJob.World, Prop: curJob.Prop, Seed: curSeed, Tier: curJob.Tier})
+		}
+	}()
 	fn := worldTable[job.World]
 	if fn == nil {
 		fmt.Fprintln(os.Stderr, "worker: unknown world", job.World)
@@ -239,6 +351,7 @@ func WorkerMain(t *testing.T) {
 		defer digest.Close()
 	}
 	if job.Replay != nil {
+		curJob, curOut, curSeed, curIdx = &job, out, job.Replay.Seed, 0
 		ro := withRaceCheck(fn, out)(t, &job, job.Replay.Seed, job.Replay)
 		out.Runs = 1
 		if ro.Infra != "" {
@@ -263,6 +376,12 @@ func WorkerMain(t *testing.T) {
 			break
 		}
 		seed := job.SeedBase + uint64(idx*job.Stride+job.Offset)
+		// if the process dies inside this run (fatal error, panic on a goroutine outside the simulation), the
+		// driver finds the seed here
+		os.WriteFile(job.Out+".current", []byte(fmt.Sprintf("%d %d", seed, idx)), 0o644)
+		curJob, curOut, curSeed, curIdx = &job, out, seed, idx
+		pendingVio, pendingRp = nil, nil
+		atomicRunCounter.Add(1)
 		ro := withRaceCheck(fn, out)(t, &job, seed, nil)
 		out.NextIndex = idx + 1
 		if digest != nil {
@@ -440,6 +559,7 @@ func schedConfig(seed uint64, rng *simrt.Rng) (simrt.Config, string) {
 		cfg.Policy = simrt.PolicyPriority
 		cfg.ChangePoints = rng.Range(1, 5)
 	}
+	cfg.Unclean = hardUnclean
 	if os.Getenv("VERIF_TRACE") != "" {
 		cfg.TraceLen, cfg.TraceTime = 20000, true
 	}
@@ -489,3 +609,20 @@ func withRaceCheck(fn worldFn, out *Output) worldFn {
 }
 
 func debugStack() []byte { return debug.Stack() }
+
+// guarded runs f (code of the program under test, outside a bubble) with a generous wall-clock limit; a
+// call that does not return is a hang. The stuck goroutine cannot be stopped, so the caller must end the
+// process after reporting.
+func guarded(limit time.Duration, f func()) (hung bool) {
+	done := make(chan struct{})
+	go func() {
+		defer close(done)
+		f()
+	}()
+	select {
+	case <-done:
+		return false
+	case <-time.After(limit):
+		return true
+	}
+}
